@@ -391,9 +391,10 @@ func init() {
 			"plain (non-dense) Node groups and zero-node dense groups are excluded: the first is unsupported by the library (see C06), the second serialises to an empty message no writer emits",
 			"the writer's own encoder (protowire varint/zigzag/packed, compress/zlib) is trusted",
 		},
-		Cases:   c01Cases,
-		Exec:    c01Exec,
-		Workers: 12,
+		Cases:            c01Cases,
+		Exec:             c01Exec,
+		CrashIsViolation: true,
+		Workers:          12,
 	})
 	_ = osm.TypeNode
 }
